@@ -288,6 +288,7 @@ def run(chk):
         jobs = mle_jobs(shapes, PARAMS, ["u16", "u32"], 4)
     mle_part(chk, jobs, chk.seed, "grid")
     huge_part(chk)
+    alias_part(chk)
     chk.cov["exhaustive"] = True
     chk.cov["explanation"] = ("counting estimators: exhaustive over all pairs of sequences over 3 symbols with lengths "
                               "1..%d (including unequal lengths), each replayed into all 8 entry points and all element "
@@ -311,9 +312,30 @@ def huge_part(chk, report=True):
     return bad
 
 
+def alias_part(chk, report=True):
+    """both arguments taken from one buffer: the whole twice -> exactly 1; the whole against a proper prefix -> reported"""
+    out = os.path.join(chk.wd, "alias.json")
+    harness("c14", ["alias", "out=" + out], timeout=600)
+    cases = json.load(open(out))["cases"]
+    bad = [c for c in cases if not c["ok"]]
+    chk.add("evaluations", 2 * len(cases))
+    if report:
+        for c in bad:
+            chk.violation(dict(kind="alias", fn=c["fn"]), dict(kind="alias", case=c))
+    log("[C14] both arguments from one buffer: %d estimators, %d wrong" % (len(cases), len(bad)))
+    return bad
+
+
 def replay(chk, path):
     sc = json.load(open(path))["scenario"]
     build_harness("c14")
+    if sc["kind"] == "alias":
+        bad = [c for c in alias_part(chk, report=False) if c["fn"] == sc["case"]["fn"]]
+        for c in bad:
+            log(json.dumps(c))
+        if bad:
+            log("VIOLATION property=C14 replay=%s" % path)
+        return 1 if bad else 0
     if sc["kind"] == "huge":
         bad = [c for c in huge_part(chk, report=False) if c["fn"] == sc["case"]["fn"] and c["differing"] == sc["case"]["differing"]]
         for c in bad:
